@@ -536,7 +536,7 @@ func main() {
 		}
 	}
 	// leg 1c: random values
-	nRand := r.Pick(3000000, 300000000)
+	nRand := r.Pick(3000000, 100000000)
 	shards := 64
 	vf.Parallel(shards, workers, func(s int) {
 		l := getLocal()
@@ -565,7 +565,7 @@ func main() {
 	})
 
 	// leg 2: plain decimal strings
-	nPlain := r.Pick(3000000, 200000000)
+	nPlain := r.Pick(3000000, 60000000)
 	vf.Parallel(shards, workers, func(s int) {
 		l := getLocal()
 		rng := r.Rand("plain", s)
@@ -588,7 +588,7 @@ func main() {
 	}
 
 	// leg 3: hostile strings
-	nHost := r.Pick(3000000, 200000000)
+	nHost := r.Pick(3000000, 60000000)
 	vf.Parallel(shards, workers, func(s int) {
 		l := getLocal()
 		rng := r.Rand("hostile", s)
